@@ -613,8 +613,10 @@ pub(crate) fn run_with_crashes(
     }
     disarm_crash();
     let trace_lines = std::mem::take(&mut sim.trace);
+    // a store that cannot be reopened leaves no client behind
+    let sim = if sim.client.is_some() { Some(sim) } else { None };
     (
-        Some(sim),
+        sim,
         CrashOutcome {
             run: RunOutcome { steps: step, converged, panic, applicable: vec![], trace: trace_lines },
             writes,
